@@ -777,7 +777,7 @@ func genHistory(rng *rand.Rand, n int, fenced bool) []hstep {
 			}
 			steps = append(steps, hstep{Op: "rename", I: rng.Intn(100), Name: nm, Kind: k})
 		case r < 97:
-			steps = append(steps, hstep{Op: "namedmd", Name: []string{"a", "b", "llvm.ident"}[rng.Intn(3)], N: rng.Intn(9)})
+			steps = append(steps, hstep{Op: "namedmd", Name: []string{"a", "b", "llvm.ident", "A", "B", "ab", "Ab", "aB", "AB"}[rng.Intn(9)], N: rng.Intn(9)}) // (names that differ in letter case only: an order that folds case must still be total)
 		default:
 			bi := rng.Intn(len(funcs[fi].blocks))
 			steps = append(steps, hstep{Op: "attach", F: fi, B: bi, I: rng.Intn(20), N: rng.Intn(9)})
